@@ -80,6 +80,30 @@ def _scale_and_target(fn):
     return {('param', 2): 1}, {('param', 3): 1}
 
 
+def _unsigned_atom(fn, lin):
+    """is the single atom of `lin` (a parameter, or a field of a carrier parameter) of an unsigned integer type"""
+    (k, _), = lin.items()
+    if k[0] == 'param':
+        return fn.locals[k[1]].lstrip('&').startswith('u')
+    if k[0] == 'field' and k[1][0] == 'param':
+        found = []
+
+        def walk(o):
+            if isinstance(o, dict):
+                if o.get('l') == k[1][1] and isinstance(o.get('p'), list) and o.get('ty'):
+                    pr = [e for e in o['p'] if e != '*']
+                    if len(pr) == 1 and isinstance(pr[0], dict) and pr[0].get('n') == k[2]:
+                        found.append(o['ty'])
+                for v in o.values():
+                    walk(v)
+            elif isinstance(o, list):
+                for v in o:
+                    walk(v)
+        walk(fn.d['blocks'])
+        return bool(found) and all(re.match(r'^u(8|16|32|64|128|size)$', t) for t in found)
+    return False
+
+
 def check(rep, F, rule='FIXED-POINT'):
     fn = F.fns.get('impl_fmt::format_ascii_digits_with_integer_and_fraction')
     if fn is None:
@@ -107,9 +131,9 @@ def check(rep, F, rule='FIXED-POINT'):
         if any(_is(TB.strip_refs(o_), 'panic') for o_ in [out]):
             continue
         eqs, ges, nes = [], [], []
-        for i in (2, 3):
-            if fn.locals[i].lstrip('&').startswith('u'):
-                ges.append({('param', i): 1})          # unsigned parameter
+        for lin in (scale, target):
+            if _unsigned_atom(fn, lin):
+                ges.append(dict(lin))                  # unsigned parameter / unsigned field of the carrier
         for a, c in atoms:
             a0 = N.norm(a)
             truth = not (c == ('eq', 0))
